@@ -285,10 +285,17 @@ func NewController(kubeClient kubelib.Client, options Options) *Controller {
 		c.namespaces,
 		"Namespaces-TrafficDistribution",
 		func(old *v1.Namespace, cur *v1.Namespace, event model.Event) error {
-			if event == model.EventUpdate && old != nil {
+			switch {
+			case event == model.EventUpdate && old != nil:
 				oldTrafficDist := old.Annotations[annotation.NetworkingTrafficDistribution.Name]
 				curTrafficDist := cur.Annotations[annotation.NetworkingTrafficDistribution.Name]
 				if oldTrafficDist != curTrafficDist {
+					c.reprocessServicesInNamespace(cur.Name)
+				}
+			case event == model.EventAdd:
+				// Services of the namespace may have been converted before the namespace itself was seen
+				// (the informers are independent); they did not inherit its annotation then.
+				if cur.Annotations[annotation.NetworkingTrafficDistribution.Name] != "" {
 					c.reprocessServicesInNamespace(cur.Name)
 				}
 			}
